@@ -107,11 +107,13 @@ Proof.
   assert (fin : forall c3, objctr c3 = objctr c2 -> objctr c3 = objctr c + is_open ty /\ (ty = tok_OPEN -> inbObj c3 = objctr c)).
   { intros c3 H3. split; [lia|intros; contradiction]. }
   destruct (ty =? tok_CLOSE).
-  { destruct (0 <? discard c2).
+  { destruct (inOpen c2 && (discard c2 =? 0)); [discriminate|]. destruct (0 <? discard c2).
     - inversion E; subst. apply fin. unfold with_stack; cbn. reflexivity.
     - apply cont_ok in E as (es4 & E). apply fin. apply (hc_objctr _ _ _ _ E). }
   destruct (ty =? tok_ABORT).
-  { destruct rej; [inversion E; subst; apply fin; reflexivity|]. apply cont_ok in E as (es4 & E). apply fin. apply (hv_objctr _ _ _ _ _ E). }
+  { destruct rej; [inversion E; subst; apply fin; reflexivity|]. apply cont_ok in E as (es4 & E).
+    destruct (handle_violation c2 (inOpen c2) false) as [c3 es3|] eqn:EV; [|discriminate]. inversion E; subst.
+    apply fin. unfold with_inOpen; cbn [objctr]. apply (hv_objctr _ _ _ _ _ EV). }
   destruct (ty =? tok_INT).
   { destruct rej; [inversion E; subst; apply fin; reflexivity|]. apply cont_ok in E as (es4 & E). apply fin. apply (deliver_objctr _ _ _ _ E). }
   destruct (ty =? tok_NEG).
